@@ -647,3 +647,19 @@ LEVEL_TEXT += _ADDR6A
 _ADDR6B = ' R20.11: every write of Instance.type outside update_type is followed by update_type (origin_type and the dataclass builder with its type arguments are derived facts; typestate pairing).'
 EXPLANATION += _ADDR6B
 LEVEL_TEXT += _ADDR6B
+
+
+_run_before_r6c = run
+
+
+def run(repo, rep, tier):  # noqa: F811 -- round-6 remedies, batch 3
+    _run_before_r6c(repo, rep, tier)
+    if getattr(rep, "borrowed", False):
+        return
+    from ..core import round6 as _r6c
+    _r6c.identity_guards(repo, rep, "R11.14", "R20.12", "R20.13", only={"R20.12", "R20.13"})
+
+
+_ADDR6D = " R20.12: the re-entry guard of on_type_with_overridden_serialization compares the override's return type with instance.type (the attribute update_type replaces). R20.13: Instance.derive resolves forward references in the globals of self.type."
+EXPLANATION += _ADDR6D
+LEVEL_TEXT += _ADDR6D
